@@ -378,12 +378,21 @@ func (s *Service) retrieveExistingAndAssignKeys(
 			Exec(ctx, tx); err != nil {
 			return nil, errors.Skip(err, query.ErrNotFound)
 		}
+		// Several existing channels can share a name (validation off, generated index
+		// names). Each request entry is replaced at most once as far as the counter is
+		// concerned: decrementing once per existing channel would reserve fewer keys than
+		// are assigned below, and the next create would hand out the same keys again.
+		replaced := make(set.Set[int], len(existing))
 		for _, e := range existing {
 			idx := lo.IndexOf(names, e.Name)
 			if idx < 0 {
 				continue
 			}
 			(*channels)[idx] = e
+			if replaced.Contains(idx) {
+				continue
+			}
+			replaced.Add(idx)
 			if incCounterBy != 0 {
 				incCounterBy--
 			}
